@@ -143,6 +143,7 @@ func runHistory(c *run.Ctx, h []attempt, cc configCase, pending int) {
 		}
 		return sim.PointAction{}
 	}
+	failSecondStage := map[int]bool{}
 	w.WritePlan = func(cn *sim.Conn, p []byte) sim.WriteDecision {
 		ai, known := connOf[cn.Idx]
 		if !known {
@@ -158,17 +159,36 @@ func runHistory(c *run.Ctx, h []attempt, cc configCase, pending int) {
 			}
 			return sim.WriteDecision{Accept: -1}
 		}
-		if len(p) > 0 && (p[0]>>4 == wire.PUBLISH && p[0]&6 != 0 || p[0]>>4 == wire.PUBREL) && !resendSeen[cn.Idx] && ai == cur && resendActive {
+		isResend := len(p) > 0 && (p[0]>>4 == wire.PUBLISH && p[0]&6 != 0 || p[0]>>4 == wire.PUBREL)
+		if isResend && !resendSeen[cn.Idx] && ai == cur && resendActive {
 			// first packet of the resend on this connection
 			resendSeen[cn.Idx] = true
 			dd := sim.WriteDecision{Accept: -1}
-			if a.Kind == "resend-fail" {
+			// the failure hits the first packet, or (odd Arg, something exactly-once
+			// pending) the first packet of the exactly-once stage
+			second := false
+			if a.Kind == "resend-fail" && a.Arg%2 == 1 {
+				for k := range w.Store.CurrentLocked() {
+					if k >= 0xc000 && k <= 0xffff {
+						second = true
+					}
+				}
+				if p[0]>>4 == wire.PUBLISH && p[0]&6 == 4 || p[0]>>4 == wire.PUBREL {
+					second = false // this first packet is of that stage already
+				}
+			}
+			if a.Kind == "resend-fail" && !second {
 				dd = sim.WriteDecision{Accept: min(a.Arg, len(p)-1), Then: "error"}
 			}
+			failSecondStage[cn.Idx] = second
 			if a.Phase == "resend" {
 				dd.Gate = fmt.Sprint("phase", cur)
 			}
 			return dd
+		}
+		if isResend && failSecondStage[cn.Idx] && (p[0]>>4 == wire.PUBLISH && p[0]&6 == 4 || p[0]>>4 == wire.PUBREL) {
+			failSecondStage[cn.Idx] = false
+			return sim.WriteDecision{Accept: min(a.Arg, len(p)-1), Then: "error"}
 		}
 		return sim.WriteDecision{Accept: -1}
 	}
